@@ -6,6 +6,12 @@
 
 package migrate
 
+import "time"
+
 // simPoint marks an instant at which the deterministic simulator (build tag
 // "verif") may crash or park the process. It is a no-op in regular builds.
 func simPoint(string) {}
+
+// simNow is the clock that names new migration files; the simulator owns it in builds with
+// the "verif" tag. It is the wall clock in regular builds.
+func simNow() time.Time { return time.Now() }
